@@ -331,6 +331,10 @@ func (c *compiler) compile(tok *token) []instruction {
 			res = append(res, c.compile(arg.Tokens[indexItem])...)
 			res = append(res, c.compile(arg.Tokens[indexKey])...)
 			res = append(res, instruction{Code: codeSet})
+		} else if idx, ok := c.importedGlobal(arg); ok {
+			res = append(res, instruction{Code: codeGlobalGet, A: reg(idx)})
+			res = append(res, todo...)
+			res = append(res, instruction{Code: codeGlobalSet, A: reg(idx)})
 		} else if arg.Symbol == "." {
 			const indexItem, indexKey = 0, 1
 			res = append(res, c.compile(arg.Tokens[indexItem])...)
@@ -458,6 +462,8 @@ func (c *compiler) compile(tok *token) []instruction {
 				res = append(res, c.compile(arg.Tokens[indexItem])...)
 				res = append(res, c.compile(arg.Tokens[indexKey])...)
 				res = append(res, instruction{Code: codeSet})
+			} else if idx, ok := c.importedGlobal(arg); ok {
+				res = append(res, instruction{Code: codeGlobalSet, A: reg(idx)})
 			} else if arg.Symbol == "." {
 				const indexItem, indexKey = 0, 1
 				res = append(res, c.compile(arg.Tokens[indexItem])...)
@@ -880,6 +886,24 @@ func (c *compiler) compile(tok *token) []instruction {
 		res[n].Pos = newPos(c.Globals, tok.Pos.Filename, c.FuncName, tok.Pos.Line, tok.Pos.Column)
 	}
 	return res
+}
+
+// importedGlobal resolves pkg.Name to its global when pkg is an imported
+// package (and not shadowed by a local), for assignments to another package's
+// variable.
+func (c *compiler) importedGlobal(tok *token) (int, bool) {
+	if tok.Symbol != "." || tok.Tokens[0].Symbol != "(name)" || c.Locals.Exists(tok.Tokens[0].Text) {
+		return 0, false
+	}
+	pkg, ok := c.Imports[tok.Tokens[0].Text]
+	if !ok {
+		return 0, false
+	}
+	key := pkg + "." + tok.Tokens[1].Text
+	if !c.Globals.Exists(key) {
+		panicf("undefined: %v", key)
+	}
+	return c.Globals.Index(key), true
 }
 
 func (c *compiler) toData(typ Type, data *token) []instruction {
